@@ -1864,6 +1864,60 @@ func ruleC11Unshared(p *Program, r *Run) {
 	}
 	visiting := map[*ast.FuncDecl]bool{}
 	var fresh func(x ast.Expr, fd *ast.FuncDecl, depth int) bool
+	// freshResult: the idx-th result of the call is a node its callee has just obtained
+	var freshResult func(call *ast.CallExpr, idx, depth int) bool
+	freshResult = func(call *ast.CallExpr, idx, depth int) bool {
+		f := Callee(info, call)
+		if f == nil {
+			if sig, ok := info.TypeOf(call.Fun).Underlying().(*types.Signature); ok && sig.Params().Len() >= 1 && strings.HasSuffix(TypeStr(sig.Params().At(0).Type()), "parser.parser") {
+				return true
+			}
+			return false
+		}
+		decl, dpkg := p.DeclOf(f)
+		if sig := f.Type().(*types.Signature); sig.Recv() != nil && strings.HasSuffix(TypeStr(sig.Recv().Type()), "parser.parser") {
+			// a production: trusted for its node results when it is one of the reviewed ones, looked into otherwise
+			if decl == nil || p.recordedFunc(f) {
+				return true
+			}
+		}
+		if decl == nil || decl.Body == nil || dpkg != pkg || visiting[decl] || depth > 6 {
+			return false
+		}
+		visiting[decl] = true
+		defer delete(visiting, decl)
+		ok, rets := true, 0
+		named := namedResults(decl)
+		ast.Inspect(decl.Body, func(n ast.Node) bool {
+			if _, nested := n.(*ast.FuncLit); nested {
+				return false
+			}
+			ret, isRet := n.(*ast.ReturnStmt)
+			if !isRet {
+				return true
+			}
+			rets++
+			switch {
+			case idx < len(ret.Results):
+				if !fresh(ret.Results[idx], decl, depth+1) {
+					ok = false
+				}
+			case len(ret.Results) == 1:
+				// return otherProduction(): its idx-th result
+				if c2, isCall := ast.Unparen(ret.Results[0]).(*ast.CallExpr); !isCall || !freshResult(c2, idx, depth+1) {
+					ok = false
+				}
+			case len(ret.Results) == 0 && idx < len(named):
+				if !fresh(named[idx], decl, depth+1) {
+					ok = false
+				}
+			default:
+				ok = false
+			}
+			return true
+		})
+		return ok && rets > 0
+	}
 	fresh = func(x ast.Expr, fd *ast.FuncDecl, depth int) bool {
 		x = ast.Unparen(x)
 		if depth > 6 {
@@ -1884,12 +1938,53 @@ func ruleC11Unshared(p *Program, r *Run) {
 			if fd != nil && fd.Recv != nil && len(fd.Recv.List) == 1 && len(fd.Recv.List[0].Names) == 1 && info.Defs[fd.Recv.List[0].Names[0]] == types.Object(o) {
 				return true // the node a method was called on, wrapped into a new node (id.AsQualified())
 			}
-			return p.allDefsAre(v, func(d ast.Expr) bool {
-				if id, ok := d.(*ast.Ident); ok && objOf(info, id) == types.Object(o) {
-					return false
+			// every definition of the local: a fresh value, or the i-th result of a call whose i-th results are fresh
+			ofd := p.FuncAt(o.Pos())
+			if ofd == nil {
+				return false
+			}
+			n, good := 0, true
+			ast.Inspect(ofd.Body, func(m ast.Node) bool {
+				switch a := m.(type) {
+				case *ast.AssignStmt:
+					for i, l := range a.Lhs {
+						if objOf(info, l) != types.Object(o) {
+							continue
+						}
+						n++
+						switch {
+						case len(a.Rhs) == len(a.Lhs):
+							if id, ok := ast.Unparen(a.Rhs[i]).(*ast.Ident); ok && objOf(info, id) == types.Object(o) {
+								good = false
+							} else if !fresh(a.Rhs[i], fd, depth+1) {
+								good = false
+							}
+						case len(a.Rhs) == 1:
+							call, isCall := ast.Unparen(a.Rhs[0]).(*ast.CallExpr)
+							if !isCall || !freshResult(call, i, depth+1) {
+								good = false
+							}
+						default:
+							good = false
+						}
+					}
+				case *ast.ValueSpec:
+					for i, nm := range a.Names {
+						if info.Defs[nm] == types.Object(o) && i < len(a.Values) {
+							n++
+							if !fresh(a.Values[i], fd, depth+1) {
+								good = false
+							}
+						}
+					}
+				case *ast.UnaryExpr:
+					if a.Op == token.AND && objOf(info, a.X) == types.Object(o) {
+						good = false
+					}
 				}
-				return fresh(d, fd, depth+1)
+				return true
 			})
+			return good && n > 0
 		case *ast.CompositeLit:
 			return true
 		case *ast.UnaryExpr:
@@ -1903,37 +1998,7 @@ func ruleC11Unshared(p *Program, r *Run) {
 			if tv, ok := info.Types[v.Fun]; ok && tv.IsType() && len(v.Args) == 1 {
 				return fresh(v.Args[0], fd, depth+1)
 			}
-			f := Callee(info, v)
-			if f == nil {
-				// a production called through a table of function values: func(p *parser, ...) (node, error)
-				if sig, ok := info.TypeOf(v.Fun).Underlying().(*types.Signature); ok && sig.Params().Len() >= 1 && strings.HasSuffix(TypeStr(sig.Params().At(0).Type()), "parser.parser") {
-					return true
-				}
-				return false
-			}
-			if sig := f.Type().(*types.Signature); sig.Recv() != nil && strings.HasSuffix(TypeStr(sig.Recv().Type()), "parser.parser") {
-				return true // a production
-			}
-			decl, dpkg := p.DeclOf(f)
-			if decl == nil || decl.Body == nil || dpkg != pkg || visiting[decl] {
-				return false
-			}
-			visiting[decl] = true
-			defer delete(visiting, decl)
-			ok, rets := true, 0
-			ast.Inspect(decl.Body, func(n ast.Node) bool {
-				if _, nested := n.(*ast.FuncLit); nested {
-					return false
-				}
-				if ret, isRet := n.(*ast.ReturnStmt); isRet && len(ret.Results) >= 1 {
-					rets++
-					if !fresh(ret.Results[0], decl, depth+1) {
-						ok = false
-					}
-				}
-				return true
-			})
-			return ok && rets > 0
+			return freshResult(v, 0, depth+1)
 		}
 		return false
 	}
@@ -2686,15 +2751,78 @@ func ruleC06LetErrors(p *Program, r *Run) {
 		return
 	}
 	reach := p.reachesWriter()
+	// every assignment to the error variable takes it from a call that leads into the expression writer (as any of
+	// the call's results)
 	propagated := func(x ast.Expr) bool {
-		return p.allDefsAre(x, func(d ast.Expr) bool {
-			call, ok := ast.Unparen(d).(*ast.CallExpr)
+		o, _ := objOf(info, x).(*types.Var)
+		if o == nil {
+			return false
+		}
+		fd := p.FuncAt(o.Pos())
+		if fd == nil {
+			return false
+		}
+		n, good := 0, true
+		ast.Inspect(fd.Body, func(m ast.Node) bool {
+			as, ok := m.(*ast.AssignStmt)
+			if !ok {
+				return true
+			}
+			for i, l := range as.Lhs {
+				if objOf(info, l) != types.Object(o) {
+					continue
+				}
+				n++
+				var rhs ast.Expr
+				if len(as.Rhs) == len(as.Lhs) {
+					rhs = as.Rhs[i]
+				} else if len(as.Rhs) == 1 {
+					rhs = as.Rhs[0]
+				}
+				call, isCall := ast.Unparen(rhs).(*ast.CallExpr)
+				if !isCall {
+					good = false
+					continue
+				}
+				if f := Callee(info, call); f == nil || !reach[f] {
+					good = false
+				}
+			}
+			return true
+		})
+		return good && n > 0
+	}
+	// a guard against a tree the parser never produces: `if stmt.Name == nil || stmt.X == nil { return error }`
+	optional := p.optionalNodeFields()
+	deadGuard := func(ret *ast.ReturnStmt) bool {
+		ifs, ok := p.Parent(p.Parent(ret)).(*ast.IfStmt)
+		if !ok || ifs.Init != nil {
+			return false
+		}
+		var nilTests func(c ast.Expr) bool
+		nilTests = func(c ast.Expr) bool {
+			b, ok := ast.Unparen(c).(*ast.BinaryExpr)
 			if !ok {
 				return false
 			}
-			f := Callee(info, call)
-			return f != nil && reach[f]
-		})
+			if b.Op == token.LOR {
+				return nilTests(b.X) && nilTests(b.Y)
+			}
+			if b.Op != token.EQL || !isNilIdent(info, b.Y) {
+				return false
+			}
+			sel, ok := ast.Unparen(b.X).(*ast.SelectorExpr)
+			if !ok {
+				return false
+			}
+			f := selField(info, sel)
+			if f == nil {
+				return false
+			}
+			_, opt := optional[fieldKey(info.TypeOf(sel.X), f)]
+			return !opt
+		}
+		return nilTests(ifs.Cond)
 	}
 	n := 0
 	for _, root := range p.regionOf(pkg, letCase) {
@@ -2712,6 +2840,10 @@ func ruleC06LetErrors(p *Program, r *Run) {
 			}
 			n++
 			key := fmt.Sprintf("%s let case failure #%d (%s)", fn, n, exprStr(last))
+			if deadGuard(ret) {
+				r.PassNT("C06/let-errors", key, p.Pos(ret.Pos()), "a guard against a node field the parser always sets: not reachable after a successful parse")
+				return true
+			}
 			r.Check(propagated(last), "C06/let-errors", key, p.Pos(ret.Pos()), "the error of the function that wrote the let value", "the let case fails with an error of its own ("+exprStr(last)+") instead of the error found while writing the value: a let is rejected by a rule the documentation does not have - e.g. a let that redefines a name in terms of its earlier binding, which is legitimate scoping")
 			return true
 		})
